@@ -321,6 +321,60 @@ class Recorder:
         self.swallowed = []     # (exception name, writes so far) of every refusal the script swallowed
 
 
+class Liar(str):
+    """a str subclass whose __contains__ / lower() lie (OUTSIDE C08's quantifier: application code
+    attacking itself; run for the record only)"""
+
+    def __contains__(self, x):
+        return False
+
+    def lower(self):
+        return "x-liar"
+
+
+def make_container(hs, opt):
+    """the header CONTAINER the application passes: opt["container"] in
+      tuple     a tuple of pairs instead of a list
+      gen/iter  a generator / one-shot iterator: a second iteration yields nothing
+      flip      a list subclass whose FIRST iteration yields [hs] and every later one opt["later"]
+      flip_pairs  pairs that are tuple subclasses whose first unpacking yields (k, v) and every later
+                  one the corresponding pair of opt["later"]
+    The pairs of the case (a[2]) are the FIRST snapshot: what start_response validates is what it must send."""
+    kind = opt.get("container")
+    later = [(real_obj(k), real_obj(v)) for k, v in opt.get("later", [])]
+    if not kind:
+        return hs
+    if kind == "tuple":
+        return tuple(hs)
+    if kind == "gen":
+        return (p for p in hs)
+    if kind == "iter":
+        return iter(hs)
+    if kind == "flip":
+        class Flip(list):
+            passes = 0
+
+            def __iter__(self):
+                self.passes += 1
+                return list.__iter__(self) if self.passes == 1 else iter(later)
+        return Flip(hs)
+    if kind == "flip_pairs":
+        class FlipPair(tuple):
+            def __new__(cls, first, other):
+                o = tuple.__new__(cls, first)
+                o.other = other
+                o.passes = 0
+                return o
+
+            def __iter__(self):
+                self.passes += 1
+                return tuple.__iter__(self) if self.passes == 1 else iter(self.other)
+        return [FlipPair(tuple(p), later[i % len(later)] if later else tuple(p)) for i, p in enumerate(hs)]
+    if kind == "liar":
+        return [(Liar(k) if isinstance(k, str) else k, Liar(v) if isinstance(v, str) else v) for k, v in hs]
+    raise ValueError("unknown container " + kind)
+
+
 def run_actions_real(acts, start_response, rec):
     for a in acts:
         if a[0] == "S":
@@ -328,6 +382,14 @@ def run_actions_real(acts, start_response, rec):
             opt = a[4] if len(a) > 4 else {}
             mk = list if opt.get("lists") else tuple     # PEP 3333 wants tuples; lists are accepted too
             hs = [mk((real_obj(k), real_obj(v))) for k, v in headers]
+            hs = make_container(hs, opt)
+            if opt.get("container"):
+                if exc is None:
+                    rec.write = start_response(real_obj(status), hs)
+                else:
+                    e = make_exc(exc, log=False)
+                    rec.write = start_response(real_obj(status), hs, (type(e), e, None))
+                continue
             if exc is None:
                 rec.write = start_response(real_obj(status), hs)
             else:
@@ -342,6 +404,7 @@ def run_actions_real(acts, start_response, rec):
             # the application (or an error-handling wrapper) swallows whatever start_response raises
             status, headers, exc = a[1], a[2], a[3]
             hs = [(real_obj(k), real_obj(v)) for k, v in headers]
+            hs = make_container(hs, a[4] if len(a) > 4 else {})
             try:
                 if exc is None:
                     w = start_response(real_obj(status), hs)
@@ -656,9 +719,12 @@ def W(b):
     return ["W", hexb(b)]
 
 
-def TRY(status="200 OK", headers=(), exc=None):
+def TRY(status="200 OK", headers=(), exc=None, **opt):
     """start_response inside try/except BaseException: the refusal is swallowed"""
-    return ["T", status, [list(h) for h in headers], exc]
+    a = ["T", status, [list(h) for h in headers], exc]
+    if opt:
+        a.append(opt)
+    return a
 
 
 VERSIONS = ["1.0", "1.1", "2.0"]
@@ -901,12 +967,12 @@ def start_variants(status, headers, opt=None):
         ("exc_info after output", [good, W(b"out")], [Y(b"more", [S(status, headers, "XE", **opt)])]),
         ("second call without exc_info", [good, S(status, headers, **opt)], [Y(b"body")]),
         # the application (or a wrapper) swallows the refusal and produces a response anyway
-        ("swallowed initial call, body returned", [TRY(status, headers)], [Y(b"body")]),
-        ("swallowed exc_info re-call, body returned", [good, TRY(status, headers, "XE")], [Y(b"body")]),
-        ("swallowed exc_info re-call, then write()", [good, TRY(status, headers, "XE"), W(b"data")], []),
-        ("swallowed in first iteration", [], [Y(b"body", [TRY(status, headers)])]),
+        ("swallowed initial call, body returned", [TRY(status, headers, **opt)], [Y(b"body")]),
+        ("swallowed exc_info re-call, body returned", [good, TRY(status, headers, "XE", **opt)], [Y(b"body")]),
+        ("swallowed exc_info re-call, then write()", [good, TRY(status, headers, "XE", **opt), W(b"data")], []),
+        ("swallowed in first iteration", [], [Y(b"body", [TRY(status, headers, **opt)])]),
         ("swallowed initial call, then an accepted exc_info call",
-         [TRY(status, headers), S("201 Created", [("X-Second", "2")], "XE")], [Y(b"body")]),
+         [TRY(status, headers, **opt), S("201 Created", [("X-Second", "2")], "XE")], [Y(b"body")]),
     ]
 
 
@@ -1208,6 +1274,62 @@ def random_swallow_script(rng):
 def random_swallow_cases(rng, tier):
     n = 3000 if tier == "quick" else 60000
     return [(("random swallow script",), random_swallow_script(rng)) for _ in range(n)]
+
+
+# ---------------------------------------------------------------------------
+# header CONTAINERS whose iteration is not repeatable or not pure (fix b4f05b1: start_response takes
+# ONE snapshot of the pairs; what is validated is what is sent)
+
+CONTAINER_LATER = [
+    [("X-Evil\r\nSet-Cookie: session=attacker", "v")],
+    [("X-Ok", "1\r\nX-Injected: yes")],
+    [("Upgrade", "h2c")],
+    [("Transfer-Encoding", "gzip"), ("X-Ok", "1")],
+    [("Content-Type", "text/plain"), ("Content-Length", "999")],
+    [({"nonstr": 0}, "v")],
+    [("X-Other", "clean but never validated")],
+    [],
+]
+
+
+def container_cases(rng, tier):
+    out = []
+    snapshots = [
+        [("Content-Type", "text/plain"), ("X-Ok", "1")],
+        [("Content-Type", "text/plain"), ("Content-Length", "4"), ("X-Ok", "1")],
+        [("X-Ok", "1"), ("X-Bad\r\n", "refused in the first snapshot already")],
+        [],
+    ]
+    req_mix = [("1.1", None), ("1.0", "keep-alive"), ("1.1", "close"), ("1.0", None)]
+    k = 0
+    for kind in ("tuple", "gen", "iter", "flip", "flip_pairs"):
+        laters = CONTAINER_LATER if kind in ("flip", "flip_pairs") else [[]]
+        for later in laters:
+            for hs in snapshots:
+                if kind == "flip_pairs" and not hs:
+                    continue
+                for status in ("200 OK", "204 No Content"):
+                    for vtag, call, steps in start_variants(status, hs, {"container": kind, "later": later}):
+                        version, conn = req_mix[k % len(req_mix)]
+                        k += 1
+                        out.append((("container", kind, repr(later)[:40], len(hs), status, vtag),
+                                    mk_case(call, steps=steps, version=version, conn=conn)))
+                # the file-wrapper path re-writes response_headers (remove_content_length_header)
+                opt = {"container": kind, "later": later}
+                out.append((("container", kind, repr(later)[:40], len(hs), "file wrapper, declared length differs"),
+                            mk_case([S("200 OK", hs + [("content-length", "3")], **opt)], kind=("file", True),
+                                    steps=[Y(b"abcd"), Y(b"ef")], block_size=4)))
+    return out
+
+
+def liar_cases():
+    """str subclasses whose __contains__ / lower() lie: OUTSIDE C08's quantifier (the assumption
+    'application strings are plain str'); run for the record, never judged"""
+    out = []
+    for hs in ([("X-Evil\r\nSet-Cookie: a=b", "v")], [("X-Ok", "1\r\nX-Injected: yes")], [("Connection", "close")],
+               [("X-Plain", "v")]):
+        out.append((("liar", repr(hs)[:40]), mk_case([S("200 OK", hs, container="liar")], steps=[Y(b"body")])))
+    return out
 
 
 def caseless(c):
